@@ -95,6 +95,54 @@ func TestLbvcScenarioOffsets(t *testing.T) {
 		}
 		cleanup()
 	}
+	// a follower log fed with replicated message sets (AppendMessageSet), several messages per set, across segment
+	// rolls: every offset is found by a reader started AT it (point lookup through the index), and a truncation in
+	// the middle keeps exactly the prefix
+	for _, segBytes := range []int64{100, 300, 500, 1 << 20} {
+		src, cleanupSrc := lbvcLog(t, Options{MaxSegmentBytes: 1 << 20})
+		dst, cleanupDst := lbvcLog(t, Options{MaxSegmentBytes: segBytes})
+		total := 0
+		for b := 0; b < 6; b++ {
+			n := 1 + b%3
+			var msgs []*Message
+			for i := 0; i < n; i++ {
+				msgs = append(msgs, lbvcMsg(total+i, 0))
+			}
+			seg := src.activeSegment()
+			from := seg.Position()
+			if _, err := src.Append(msgs); err != nil {
+				break
+			}
+			raw := make([]byte, seg.Position()-from)
+			if _, err := seg.ReadAt(raw, from); err != nil {
+				problems = append(problems, "cannot read back the source message set: "+err.Error())
+				break
+			}
+			if _, err := dst.AppendMessageSet(raw); err != nil {
+				problems = append(problems, fmt.Sprintf("AppendMessageSet failed: %v", err))
+				break
+			}
+			total += n
+		}
+		desc := fmt.Sprintf("replicated log, segment bytes %d, %d messages in sets of 1-3", segBytes, total)
+		for start := 0; start < total; start++ {
+			offs, vals := lbvcReadFwd(dst, int64(start), 2)
+			if len(offs) == 0 || offs[0] != int64(start) || vals[0] != fmt.Sprintf("k%d=value-%d", start, start) {
+				problems = append(problems, fmt.Sprintf("%s: a reader started at offset %d gets %v %v", desc, start, offs, vals))
+				break
+			}
+		}
+		if total > 4 {
+			cut := int64(total - 2)
+			if err := dst.Truncate(cut); err != nil {
+				problems = append(problems, desc+": Truncate: "+err.Error())
+			} else if got := lbvcReadAll(t, dst, 0); int64(len(got)) != cut {
+				problems = append(problems, fmt.Sprintf("%s: after Truncate(%d) the log reads %v", desc, cut, got))
+			}
+		}
+		cleanupSrc()
+		cleanupDst()
+	}
 	if len(problems) > 0 {
 		t.Fatalf("LBVC-REPRODUCED (obligation %s): %s", os.Getenv("LBVC_OBLIGATION"), strings.Join(problems, "; "))
 	}
@@ -708,6 +756,64 @@ func TestLbvcScenarioHighWatermark(t *testing.T) {
 			l.SetHighWatermark(hw)
 			if after := l.HighWatermark(); after < before {
 				problems = append(problems, fmt.Sprintf("log end 3: high watermark moved backwards %d -> %d (SetHighWatermark(%d))", before, after, hw))
+			}
+		}
+		cleanup()
+	}
+	// the watermark a follower adopts from its leader can be ahead of the follower's own log: a committed reader parked
+	// at the end of the log when that happens must, once the data arrives, deliver the next message or fail - it must
+	// not crash the process and must not hand out anything else
+	for _, segBytes := range []int64{150, 1 << 20} {
+		l, cleanup := lbvcLog(t, Options{MaxSegmentBytes: segBytes})
+		for i := 0; i < 3; i++ {
+			l.Append([]*Message{lbvcMsg(i, 0)})
+		}
+		l.SetHighWatermark(2)
+		desc := fmt.Sprintf("segment bytes %d, 3 messages committed, reader parked at the end, watermark set to 5 (beyond the log end), then messages 3..6 appended", segBytes)
+		if r, err := l.NewReader(0, false); err == nil {
+			hb := make([]byte, 28)
+			okSoFar := true
+			for i := 0; i < 3 && okSoFar; i++ {
+				ctx, cancel := context.WithTimeout(context.Background(), time.Second)
+				_, off, _, _, err := r.ReadMessage(ctx, hb)
+				cancel()
+				okSoFar = err == nil && off == int64(i)
+			}
+			if okSoFar {
+				result := make(chan string, 1)
+				go func() {
+					defer func() {
+						if p := recover(); p != nil {
+							result <- fmt.Sprintf("the reader panicked: %v", p)
+						}
+					}()
+					ctx, cancel := context.WithTimeout(context.Background(), 3*time.Second)
+					defer cancel()
+					m, off, _, _, err := r.ReadMessage(ctx, hb)
+					if err != nil {
+						result <- ""
+						return
+					}
+					if off != 3 || string(m.Value()) != "value-3" {
+						result <- fmt.Sprintf("the reader was handed offset %d value %q, the next committed message is offset 3 value \"value-3\"", off, lbvcShort(string(m.Value())))
+						return
+					}
+					result <- ""
+				}()
+				time.Sleep(150 * time.Millisecond)
+				l.SetHighWatermark(5)
+				time.Sleep(150 * time.Millisecond)
+				for i := 3; i < 7; i++ {
+					l.Append([]*Message{lbvcMsg(i, 0)})
+				}
+				l.SetHighWatermark(6)
+				select {
+				case res := <-result:
+					if res != "" {
+						problems = append(problems, desc+": "+res)
+					}
+				case <-time.After(5 * time.Second):
+				}
 			}
 		}
 		cleanup()
